@@ -140,7 +140,7 @@ func showInvocations(l []invocation) string {
 	}
 	p := make([]string, len(l))
 	for i, v := range l {
-		p[i] = fmt.Sprintf("h%d:%s:%s", v.h, v.account, v.payload)
+		p[i] = fmt.Sprintf("h%d:%s", v.h, v.account)
 	}
 	return strings.Join(p, " ")
 }
